@@ -49,11 +49,13 @@ def child(case):
         def on_submit_lp(job):
             on_submit(job)
             nm = job.name.split('.')[-1]
-            if lp and st.get('attacking') and nm in ('lookup_hashXs', 'lookup_utxos', 'deserialize_txs') and eng.rng.random() < lp:
+            if lp and st.get('attacking') and nm in case.get('hold_only', ('lookup_hashXs', 'lookup_utxos', 'deserialize_txs')) and eng.rng.random() < lp:
                 # the prevout lookup is held back while the block processor goes on indexing
                 job.longpark = 'job-end' if nm == 'deserialize_txs' else 'start'
-                job.park_secs = eng.rng.choice((6, 11))
+                job.park_secs = eng.rng.choice(case.get('hold_secs', (6, 11)))
                 eng.bump('lookup_jobs_held_back')
+                if nm == 'lookup_utxos':
+                    eng.bump('second_lookup_pass_held_back')
         loop_.gex.on_submit = on_submit_lp
         # a pool with parents, children and grandchildren
         eng.step('add')
@@ -172,6 +174,13 @@ def gen_cases(tier, seed):
         cases.append({'seed': rng.randrange(1 << 30), 'attacks': [(k, 'mine_parents'), (k, 'mine_parents')], 'txindex': False,
                       'policy': 'random', 'p': 0.3, 'latency': None, 'chain': True, 'prefetch': 100})
     for k in range(12 if tier == 'quick' else 80):
+        # a block confirming listed txs arrives when the second pass of the prevout lookup is submitted, and that pass is held until
+        # the index has flushed the block: prevouts the first pass resolved are gone in the second
+        cases.append({'seed': rng.randrange(1 << 30), 'attacks': [('lookup_utxos', rng.choice(('mine_all', 'mine_some', 'mine_parents'))),
+                                                                    ('lookup_utxos', rng.choice(('mine_all', 'mine_some')))],
+                      'txindex': k % 2 == 0, 'policy': rng.choice(('random', 'lazy')), 'p': 0.3, 'latency': None, 'chain': k % 3 == 0, 'prefetch': 100,
+                      'longpark_lookup': 1.0, 'hold_only': ('lookup_utxos',), 'hold_secs': (8, 11, 14), 'reorg_limit': 8, 'colls': 0})
+    for k in range(12 if tier == 'quick' else 80):
         # index advancing between the raw fetch and the prevout lookup of one refresh; same-height branch switches
         cases.append({'seed': rng.randrange(1 << 30), 'attacks': [(rng.choice((1, 2, 'deserialize_txs')), rng.choice(('mine_all', 'mine_some', 'mine_parents'))),
                                                                     (rng.choice((0, 1, 2)), 'same_height_switch'),
@@ -203,6 +212,7 @@ def run(tier, seed, replay=None):
     for ev in EVENTS:
         floors[f'placed:{ev}'] = 5
     floors['placed:same_height_switch'] = 5
+    floors['second_lookup_pass_held_back'] = 10
     floors['lookup_jobs_held_back'] = 20
     floors['same_height_switch_spending_colliding_outputs'] = 6
     for name, minimum in floors.items():
